@@ -60,6 +60,7 @@ class _Tunnel(Interface):
         "_reconnect_task",
         "_requested_address",
         "_send_lock",
+        "_sequence_number_used",
         "_src_address",
         "auto_reconnect",
         "auto_reconnect_wait",
@@ -88,6 +89,7 @@ class _Tunnel(Interface):
         self.communication_channel: int | None = None
         self.local_hpai: HPAI = HPAI()
         self.sequence_number = 0
+        self._sequence_number_used = False
         self.cemi_received_callback = cemi_received_callback
         self._data_endpoint_addr: tuple[str, int] | None = None
         self._heartbeat = ConnectionHeartbeat(
@@ -161,6 +163,7 @@ class _Tunnel(Interface):
     def _tunnel_established(self) -> None:
         """Set up interface when the tunnel is ready."""
         self.sequence_number = 0
+        self._sequence_number_used = False
         self.start_heartbeat()
 
     def _tunnel_lost(self) -> None:
@@ -356,6 +359,7 @@ class _Tunnel(Interface):
             sequence_counter=self.sequence_number,
             raw_cemi=raw_cemi,
         )
+        self._sequence_number_used = True
         await self._send_tunnelling_request(tunnelling_request)
 
     @abstractmethod
@@ -363,8 +367,12 @@ class _Tunnel(Interface):
         """Send TunnellingRequest frame to tunnelling device."""
 
     def _increase_sequence_number(self) -> None:
-        """Increase sequence number."""
-        self.sequence_number = self.sequence_number + 1 & 0xFF
+        """Increase sequence number if it was used on the current connection."""
+        # a send that outlives its connection must not advance the counter
+        # of the connection established in the meantime
+        if self._sequence_number_used:
+            self._sequence_number_used = False
+            self.sequence_number = self.sequence_number + 1 & 0xFF
 
     ####################
     #
